@@ -31,7 +31,7 @@ ASSUMPTIONS = [
     "scalar activation degrees (batches are rejected by the O-vec rule for every method but General)",
     "heapq is a min-heap over tuples compared lexicographically; operator.lt/le/eq/ne/ge/gt have their Python meaning",
 ]
-FLOORS = {"A-sem": 21, "O-dea": 7, "P2": 21, "O-vec": 7, "T3": 6, "U1": 2}
+FLOORS = {"A-sem": 28, "O-dea": 7, "P2": 21, "O-vec": 7, "T3": 6, "U1": 2}
 
 
 
